@@ -161,8 +161,8 @@ pub fn step(ctx: &Ctx, w: &World, ev: &mut Ev) {
                     let paid_total = -ctx.delta(&actor);
                     let new_margin = post.as_ref().map(|p| p.margin as i128).unwrap_or(0);
                     if equity < 0 {
+                        // the old position owes more than its margin: the reversing trader pays that as well
                         ev.count("reverse_with_negative_equity");
-                        return;
                     }
                     let exp = new_margin - equity + fees;
                     if paid_total != exp {
